@@ -133,7 +133,7 @@ Definition directive_parse (d : directive) (ops : dops) (st : pstate) (line : N)
               else err
           | None => err
           end
-      | Some _ => Ok (st, NewLine)
+      | Some _ => err                                     (* anything but a plain name selects no device: an error *)
       | None => err
       end
   | DInclude =>
